@@ -540,7 +540,7 @@ func c05DecodeStats(k *c05Kind, st *format.Statistics, hasValues bool) (s c05Sta
 
 func runStatsFiles(ctx *core.Ctx, c05 bool) {
 	if c05 {
-		ctx.SetRule("files written with the typed GenericWriter from a 32-column struct (required+optional int32/int64/uint32/uint64/float/double/string/[]byte/FLBA(5)/FLBA(20)/be128/uuid/decimal int32,int64,FLBA(9)/bool), PageBufferSize(1) so each Write call is one page per column, all-null pages in every position, all-NaN pages, ColumnIndexSizeLimit 1..64, page versions 1 and 2, data page statistics on; plus files of dictionary-encoded columns of every order (c05DictRow: DictionaryMaxBytes 0/1..96 so chunks fall back to PLAIN mid-way, variable-width BYTE_ARRAY decimals with equal values in different widths) and WriteRowGroup copies (verbatim and re-encoded, the re-encoded copy's chunk statistics compared with the source's), and files whose row groups are cut by Flush with >= 2 pages each and designed seams (c05MultiRow); every file with several row groups is also read through parquet.MultiRowGroup, whose column index (members' entries, order claim recomputed across the borders) must satisfy the same clauses (L1) and agree with the Lean mirror multiAsc/multiDesc (L2); read back through the page reader; recorded column index / offset index / chunk statistics / page header statistics checked against the values read (L1) and against the Lean mirrors of Bounds, of the chunk fold, of the whole chunk record and of the level model of nested pages (L2); distinct by file content, non-trivial = at least 2 pages")
+		ctx.SetRule("files written with the typed GenericWriter from a 32-column struct (required+optional int32/int64/uint32/uint64/float/double/string/[]byte/FLBA(5)/FLBA(20)/be128/uuid/decimal int32,int64,FLBA(9)/bool), PageBufferSize(1) so each Write call is one page per column, all-null pages in every position, all-NaN pages, ColumnIndexSizeLimit 1..64, page versions 1 and 2, data page statistics on; plus files of dictionary-encoded columns of every order (c05DictRow: DictionaryMaxBytes 0/1..96 so chunks fall back to PLAIN mid-way, variable-width BYTE_ARRAY decimals with equal values in different widths) and WriteRowGroup copies (verbatim and re-encoded, the re-encoded copy's chunk statistics compared with the source's), and files whose row groups are cut by Flush with >= 2 pages each and designed seams (c05MultiRow); every file with several row groups is also read through parquet.MultiRowGroup, whose column index (members' entries, order claim recomputed across the borders) must satisfy the same clauses (L1) and agree with the Lean mirror multiAsc/multiDesc (L2); plus IN-MEMORY row groups (c05BufRow: Buffer / GenericBuffer filled through the typed and the untyped API, sorted or not, leaves at max definition level 0..3 and repetition level 0..2 with nulls at every level below the max, null-only buffers with and without a level-0 null, one dictionary-indexed leaf) whose chunks' own ColumnIndex / OffsetIndex / NumValues are checked against the single page they yield (L1) and against the Lean level model and the mirror of nullableColumnIndex.NullCount (L2), alone and as members of a MultiRowGroup next to a file's row group; read back through the page reader; recorded column index / offset index / chunk statistics / page header statistics checked against the values read (L1) and against the Lean mirrors of Bounds, of the chunk fold, of the whole chunk record and of the level model of nested pages (L2); distinct by file content, non-trivial = at least 2 pages")
 	} else {
 		ctx.SetRule("same generated files as C05/files: parquet.Search on the file's column index for every distinct value of every page (must return a page at or before the first page holding the value, whose bounds contain it) and for absent probes around the bounds; distinct by file content, non-trivial = at least 2 pages")
 	}
@@ -549,7 +549,11 @@ func runStatsFiles(ctx *core.Ctx, c05 bool) {
 		if c05 {
 			b.d = ctx.Driver()
 		}
-		if f := c05ReplayFile(ctx); f != nil {
+		if d := c05ReplayDetail(ctx); d != nil && d["op"] == "buffers" {
+			if c05 {
+				c05ReplayBuffers(ctx, b, d)
+			}
+		} else if f := c05ReplayFile(ctx); f != nil {
 			c05CheckFile(ctx, b, f, c05, true)
 		}
 		b.flush()
@@ -585,6 +589,10 @@ func runStatsFiles(ctx *core.Ctx, c05 bool) {
 				}
 				for i := w; i < ctx.Scale(400, 3000); i += workers {
 					c05MultiFile(ctx, b, fmt.Sprintf("statsmulti#%d", i))
+				}
+				for i := w; i < ctx.Scale(1200, 12000); i += workers {
+					id := fmt.Sprintf("statsbuffers#%d", i)
+					c05BufferCase(ctx, b, c05BufGenCase(ctx.Rand(id), id))
 				}
 			}
 			for i := 0; i < nfiles/workers; i++ {
